@@ -55,6 +55,7 @@ struct I2I {
             using PS = decltype(+std::declval<SRep>());
             if (SE > DE && !fits<PS>(zs * zpow(radix, SE - DE))) cause = "shifted-source-exceeds-source-type/";
         }
+        o.region = cause;
         Src s = make_rep<Src>(zs);
         mpz_class got;
         bool ok = guard(o, [&] {
